@@ -45,6 +45,13 @@ func newEngine(c *mon.Ctx, mode string, rng *rand.Rand, base *Pool, env *Env) *e
 	g.set(2, banderwagon.Generator, ref.Generator())
 	k := rng.Intn(256)
 	g.set(3, env.Conf.SRS[k], env.Ref.SRS[k])
+	// an element one of whose affine coordinates is adjacent to a comparison threshold ((p-1)/2, 0, p-1, limb boundaries)
+	if tp := thresholdPoints(); len(tp) > 0 {
+		pt := tp[rng.Intn(len(tp))]
+		g.set(4, ElemFromRef(pt, nil, rng.Intn(2) == 0), pt)
+		pt2 := tp[rng.Intn(len(tp))]
+		g.set(5, ElemFromRef(pt2, randNonZeroP(rng), rng.Intn(2) == 0), pt2)
+	}
 	return g
 }
 
@@ -304,4 +311,18 @@ func (g *engine) step() {
 	if g.after != nil {
 		g.after(d, op)
 	}
+}
+
+var thresholdPts []ref.Point
+
+// thresholdPoints returns Banderwagon elements whose y (or, for the other class member, -y) lies next to a threshold.
+func thresholdPoints() []ref.Point {
+	if thresholdPts == nil {
+		for _, x := range c17thresholdXs() {
+			if yL, yS, ok := ref.YFromX(x); ok && ref.SubgroupCheck(x) {
+				thresholdPts = append(thresholdPts, ref.FromAffine(ref.Affine{X: x, Y: yL}), ref.FromAffine(ref.Affine{X: x, Y: yS}))
+			}
+		}
+	}
+	return thresholdPts
 }
